@@ -291,6 +291,70 @@ func detStream(rng *vRNG, c detConfig, n int, pReset int) []detFrame {
 	return out
 }
 
+// blobStream: a scene wholly at or below temp-thresh (border included) in which a warm
+// blob on fixed interior pixels blinks on and off in runs of 1-3 frames: cold frames
+// separate warm episodes on the same pixels (two-diff / warmer-only history effects).
+func blobStream(rng *vRNG, c detConfig, n int, pReset int) []detFrame {
+	T := int(c.Temp)
+	span := 300
+	if span > T {
+		span = T
+	}
+	cold := func() uint16 { return uint16(T - rng.Intn(span+1)) }
+	bg := make([][]uint16, c.H)
+	for y := range bg {
+		bg[y] = make([]uint16, c.W)
+		for x := range bg[y] {
+			bg[y][x] = cold()
+		}
+	}
+	type pt struct{ y, x int }
+	var blob []pt
+	want := c.Count + rng.Range(0, 2)
+	if want > c.interiorN() {
+		want = c.interiorN()
+	}
+	for tries := 0; len(blob) < want && tries < 1000; tries++ {
+		p := pt{rng.Range(c.Edge, c.H-c.Edge-1), rng.Range(c.Edge, c.W-c.Edge-1)}
+		dup := false
+		for _, q := range blob {
+			dup = dup || q == p
+		}
+		if !dup {
+			blob = append(blob, p)
+		}
+	}
+	hot := T + int(c.Delta) + 1 + rng.Intn(50)
+	if hot > 65535 {
+		hot = 65535
+	}
+	out := []detFrame{}
+	on, left := false, rng.Range(1, 3)
+	t := time.Minute
+	for i := 0; i < n; i++ {
+		if pReset > 0 && rng.Intn(100) < pReset {
+			out = append(out, detFrame{Reset: true})
+		}
+		if left == 0 {
+			on, left = !on, rng.Range(1, 3)
+		}
+		left--
+		pix := clonePix(bg)
+		if rng.Chance(30) {
+			// cold noise: still at or below the threshold
+			pix[rng.Range(0, c.H-1)][rng.Range(0, c.W-1)] = cold()
+		}
+		if on {
+			for _, p := range blob {
+				pix[p.y][p.x] = uint16(hot)
+			}
+		}
+		t += time.Second / time.Duration(c.FPS)
+		out = append(out, detFrame{Pix: pix, TimeOn: t, LastFFC: 0})
+	}
+	return out
+}
+
 func pixHash(h *vHash, p [][]uint16) {
 	for _, row := range p {
 		for _, v := range row {
